@@ -156,6 +156,79 @@ def reported_rule(prog, rep, only_files=None):
     return n
 
 
+
+def register_atomic_rule(prog, rep):
+    """A failed events_network_register() leaves nothing registered: on every path to its failure return the slot it was
+    going to fill is NULL again and no pollfd entry has been added (a successful call to a helper that grows the pollfd
+    array -- recognised as a same-unit function that changes nfds -- must not be followed by a failure return; a stored event
+    record must have been released and the slot cleared).  A left-over pollfd entry with events == 0 is polled for ever and
+    trips the POLLNVAL assertion once the caller closes the descriptor."""
+    from ..dataflow import Solver
+    up = "events/events_network.c"
+    u = prog.unit(up)
+    f = u.func("events_network_register")
+    if f is None:
+        raise cdb.AnalysisBroken("anchor missing: events_network_register")
+    growers = set()
+    for g in u.funcs:
+        if g.file == up and g is not f and any(ir.step(e) and ir.step(e)[0] == "+=" and ir.step(e)[1][0] == "v" and ir.step(e)[1][1] == "nfds" for e in g.all_elems()):
+            growers.add(g.name)
+    if not growers:
+        rep.defer_broken("ATOMIC: no helper that grows the pollfd array found in events_network.c")
+        return
+
+    def transfer(st, e):
+        tags, pend = st
+        if e.is_assign and e.op == "=" and norm(e.kid(0))[0] == "*" and norm(e.kid(0))[1][0] == "v":
+            rhs = e.kid(1).strip() if e.kid(1) is not None else None
+            if norm(e.kid(1)) == ("c", 0):
+                return (tags - {"slot"}, pend)
+            if rhs is not None and rhs.cls == "CallExpr":
+                return (tags, pend | {(rhs.pos, "slot", "ptr")})
+            return (tags | {"slot"}, pend)
+        if e.cls == "CallExpr" and e.callee in growers:
+            return (tags, pend | {(e.pos, "pollfd", "int")})
+        if ir.step(e) and ir.step(e)[0] == "+=" and ir.step(e)[1][0] == "v" and ir.step(e)[1][1] == "nfds":
+            return (tags | {"pollfd"}, pend)
+        return st
+
+    def refine(st, cond, kind):
+        tags, pend = st
+        if kind not in (True, False) or not pend:
+            return st
+        for op, L, R, Le, Re in cond_atoms(cond, kind):
+            ce = Le.strip() if Le is not None else None
+            if ce is None or ce.cls != "CallExpr":
+                continue
+            for (pos, tag, fk) in list(pend):
+                if pos != ce.pos:
+                    continue
+                fail = None
+                if fk == "ptr" and R == ("c", 0) and op in ("==", "!="):
+                    fail = op == "=="
+                if fk == "int" and R == ("c", 0) and op in ("==", "!="):
+                    fail = op == "!="
+                if fail is None:
+                    continue
+                pend = pend - {(pos, tag, fk)}
+                if not fail:
+                    tags = tags | {tag}
+        return (tags, pend)
+    sv = Solver(f, (frozenset(), frozenset()), transfer, refine, lambda a, b: (a[0] | b[0], a[1] | b[1])).run()
+    bad = []
+
+    def visit(e, st):
+        if own.is_failure_return(e):
+            tags, pend = st
+            left = set(tags) | set(t for _, t, _ in pend)
+            if left:
+                bad.append((e, sorted(left)))
+    sv.visit(visit)
+    rep.check(not bad, "ATOMIC", "events_network_register(): a failed registration leaves nothing registered", f.loc,
+              "at the failure return %s the following is still in place: %s (slot = the event record pointer stored for this descriptor/direction, "
+              "pollfd = an entry added to the pollfd array)" % ((bad[0][0].loc, bad[0][1]) if bad else ("", "")), function=f.name, construct="register-atomic")
+
+
 def atomic_rule(prog, rep):
     A = own.Atomic(prog)
     for up in CONTAINER_UNITS:
@@ -272,6 +345,7 @@ def run(tier):
         rep.add_stats(prog)
         acq = leak_rules(prog, rep)
         atomic_rule(prog, rep)
+        register_atomic_rule(prog, rep)
         infallible_rule(prog, rep)
         reported_rule(prog, rep)
         from . import c07
